@@ -197,7 +197,73 @@ func runC11(c *Ctx, w *World, r *Report) {
 		if (nA == 0 || nB == 0) && badC == "" {
 			badC = "count must be min(8*len(s)-frombit, tobit-frombit)"
 		}
-		r.Check(badC == "", "R-CLAMP", n, w.Pos(fn.Pos()), badC, "count in {8*len(s)-frombit | <= width, width | otherwise, 0}")
+		// the count returned is never negative
+		for _, ret := range returnsOf(fn) {
+			if _, isC := constInt64(stripConv(ret.Results[0])); isC {
+				continue
+			}
+			bd := fa.BoundsAt(ret.Block(), fa.Lin(ret.Results[0]))
+			if !(bd.HasLo && bd.Lo >= 0) && badC == "" {
+				badC = "the returned bit count is not established to be >= 0 (known: " + bd.String() + "): a start bit past the end of the string would yield a negative length"
+			}
+		}
+		r.Check(badC == "", "R-CLAMP", n, w.Pos(fn.Pos()), badC, "count in {8*len(s)-frombit | <= width, width | otherwise, 0}, never negative")
+
+		// R-BYTEBOUND: every byte that intersects [frombit, tobit) is read when the string has it
+		r.Rule("R-BYTEBOUND", "the gather reads byte s[k] whenever k < min(len(s), B) where B, if any bound other than len(s) is used, is at least ceil(tobit/8) = (tobit+7)>>3: a smaller bound drops the last byte of an unaligned span")
+		badB := ""
+		nb := 0
+		for _, t := range terms {
+			il := fa.Lin(t.Idx)
+			for _, cd := range fa.Conds(t.Ins.Block()) {
+				D, op, ok := fa.CondRel(cd)
+				if !ok || (op != opLT && op != opLE) {
+					continue
+				}
+				E := il.Sub(D) // bound
+				if op == opLE {
+					E.K++
+				}
+				if len(E.T) != 1 || E.K != 0 {
+					continue
+				}
+				for atom, coef := range E.T {
+					if coef != 1 {
+						continue
+					}
+					bv := fa.AtomValue(atom)
+					if _, isPhi := bv.(*ssa.Phi); !isPhi {
+						continue
+					}
+					nb++
+					for _, src := range resolvePhi(bv) {
+						L := fa.Lin(src)
+						if L.Eq(linAtom("call:builtin len(p0)")) {
+							continue
+						}
+						okB := false
+						if len(L.T) == 1 {
+							for a2, c2 := range L.T {
+								x, cc, ok := asShiftRight(fa.AtomValue(a2))
+								if ok && cc == 3 && c2 == 1 {
+									xl := fa.Lin(x).Sub(fa.Lin(fn.Params[2]))
+									if xl.IsConst() && 8*L.K+xl.K >= 7 {
+										okB = true
+									}
+								}
+							}
+						}
+						if !okB {
+							badB = "byte bound candidate " + L.String() + " is neither len(s) nor provably >= (tobit+7)>>3"
+						}
+					}
+				}
+			}
+		}
+		if nb == 0 && badB == "" {
+			// no explicit bound other than the string length: nothing can be dropped
+		}
+		r.Check(badB == "", "R-BYTEBOUND", n, w.Pos(fn.Pos()), badB, fmt.Sprintf("%d guarded byte reads; bound candidates are len(s) or >= ceil(tobit/8)", nb))
 	}
 	{ // PathOf
 		n := "bmtree.PathOf"
@@ -280,6 +346,14 @@ func runC11(c *Ctx, w *World, r *Report) {
 						if cd.V == ssa.Value(fn.Params[3]) && !cd.Pol {
 							okPath = true
 						}
+						// first iteration: the loop counter equals its first value (no predecessor exists)
+						if bo, ok := cd.V.(*ssa.BinOp); ok && bo.Op == token.EQL && cd.Pol {
+							if k, ok := constInt64(stripConv(bo.Y)); ok {
+								if iv, ok := fa.InductionOf(bo.X, call.Block()); ok && iv.FirstConst && iv.First == k {
+									okPath = true
+								}
+							}
+						}
 						if bo, ok := cd.V.(*ssa.BinOp); ok && (bo.Op == token.NEQ && cd.Pol || bo.Op == token.EQL && !cd.Pol) {
 							var other ssa.Value
 							if bo.X == ssa.Value(pc) {
@@ -317,6 +391,70 @@ func runC11(c *Ctx, w *World, r *Report) {
 			if napp != 1 && bad == "" {
 				bad = fmt.Sprintf("expected one append site, found %d", napp)
 			}
+			// R-SENTINEL: the first key has no predecessor, so the initial "previous path" must not be able
+			// to equal a real path (or the first iteration must bypass the comparison)
+			r.Rule("R-SENTINEL", "PathsOf with dedup never drops the first path: the initial value of the predecessor variable is not a well-formed path word (a path word is bits<<32|mask with mask a contiguous run of ones and bits inside the mask, or 0 for the root), unless the first iteration bypasses the comparison")
+			eachInstr(fn, func(ins ssa.Instruction) {
+				ph, ok := ins.(*ssa.Phi)
+				if !ok {
+					return
+				}
+				isPrev := false
+				var initC *ssa.Const
+				for _, e := range ph.Edges {
+					if e == ssa.Value(pc) {
+						isPrev = true
+					}
+					if cst, ok := e.(*ssa.Const); ok {
+						initC = cst
+					}
+				}
+				if !isPrev || initC == nil {
+					return
+				}
+				cv, ok := constUint64(initC)
+				if !ok {
+					return
+				}
+				mask, bits := uint32(cv), uint32(cv>>32)
+				wellFormed := false
+				if mask == 0 {
+					wellFormed = bits == 0
+				} else {
+					low := mask & -mask
+					contiguous := (mask/low+1)&(mask/low) == 0
+					wellFormed = contiguous && bits&^mask == 0
+				}
+				badS := ""
+				if wellFormed {
+					// is there a first-iteration bypass? a way into the append that neither needs !dedup nor compares with prev
+					bypass := false
+					eachInstr(fn, func(i2 ssa.Instruction) {
+						call, ok := i2.(*ssa.Call)
+						if !ok || len(appendedValues(call)) != 1 {
+							return
+						}
+						for _, cs := range fa.CondsDNF(call.Block(), 0) {
+							usesPrev, usesDedup := false, false
+							for _, cd := range cs {
+								if cd.V == ssa.Value(fn.Params[3]) && !cd.Pol {
+									usesDedup = true // the !dedup way in is not a first-iteration bypass
+								}
+								if bo, ok := cd.V.(*ssa.BinOp); ok && (bo.X == ssa.Value(ph) || bo.Y == ssa.Value(ph)) {
+									usesPrev = true
+								}
+							}
+							if !usesPrev && !usesDedup {
+								bypass = true
+							}
+						}
+					})
+					if !bypass {
+						badS = fmt.Sprintf("the predecessor variable starts at %#x, which IS a well-formed path word (bits %#x, mask %#x: the all-ones path of height 32): with dedup the first key is dropped when its path equals it, e.g. PathsOf([\"\\xff\\xff\\xff\\xff\"], 0, 32, true) returns no path", cv, bits, mask)
+					}
+				}
+				r.Check(badS == "", "R-SENTINEL", "bmtree.PathsOf|prev-init", w.InstrPos(ph), badS, fmt.Sprintf("initial predecessor %#x cannot equal a path, or the first iteration bypasses the comparison", cv))
+			})
 			// skipping only when dedup && p == prev: the non-append edge
 		}
 		r.Check(bad == "", "R-SAMEARG", n, w.Pos(fn.Pos()), bad, "for every key: p = PathOf(key, frombit, height); append unless dedup && p == prev; prev = p")
